@@ -108,7 +108,8 @@ class FortranVariableFlagsAttrBase(Data[tuple[FortranVariableFlags, ...]]):
     def __init__(self, flags: Sequence[FortranVariableFlags]):
         flags_: set[FortranVariableFlags] = set(flags)
 
-        super().__init__(tuple(flags_))
+        # store the flags in declaration order, independent of the order they were given
+        super().__init__(tuple(flag for flag in FortranVariableFlags if flag in flags_))
 
     @classmethod
     def parse_parameter(cls, parser: AttrParser) -> tuple[FortranVariableFlags, ...]:
@@ -124,7 +125,7 @@ class FortranVariableFlagsAttrBase(Data[tuple[FortranVariableFlags, ...]]):
                 )
                 flags.update(flag)
 
-            return tuple(flags)
+            return tuple(flag for flag in FortranVariableFlags if flag in flags)
 
     def print_parameter(self, printer: Printer):
         with printer.in_angle_brackets():
@@ -169,7 +170,11 @@ class FortranProcedureFlagsAttrBase(Data[tuple[FortranProcedureFlags, ...]]):
         return set(self.data)
 
     def __init__(self, flags: Sequence[FortranProcedureFlags]):
-        super().__init__(tuple(set(flags)))
+        flags_ = set(flags)
+        # store the flags in declaration order, independent of the order they were given
+        super().__init__(
+            tuple(flag for flag in FortranProcedureFlags if flag in flags_)
+        )
 
     @classmethod
     def parse_parameter(cls, parser: AttrParser) -> tuple[FortranProcedureFlags, ...]:
@@ -183,7 +188,7 @@ class FortranProcedureFlagsAttrBase(Data[tuple[FortranProcedureFlags, ...]]):
                     "fortran procedure flag expected",
                 )
                 flags.update(flag)
-            return tuple(flags)
+            return tuple(flag for flag in FortranProcedureFlags if flag in flags)
 
     def print_parameter(self, printer: Printer):
         with printer.in_angle_brackets():
@@ -223,7 +228,9 @@ class FortranInlineFlagsAttrBase(Data[tuple[FortranInlineFlags, ...]]):
         return set(self.data)
 
     def __init__(self, flags: Sequence[FortranInlineFlags]):
-        super().__init__(tuple(set(flags)))
+        flags_ = set(flags)
+        # store the flags in declaration order, independent of the order they were given
+        super().__init__(tuple(flag for flag in FortranInlineFlags if flag in flags_))
 
     @classmethod
     def parse_parameter(cls, parser: AttrParser) -> tuple[FortranInlineFlags, ...]:
@@ -237,7 +244,7 @@ class FortranInlineFlagsAttrBase(Data[tuple[FortranInlineFlags, ...]]):
                     "fortran inline flag expected",
                 )
                 flags.update(flag)
-            return tuple(flags)
+            return tuple(flag for flag in FortranInlineFlags if flag in flags)
 
     def print_parameter(self, printer: Printer):
         with printer.in_angle_brackets():
@@ -275,7 +282,9 @@ class PackArrayHeuristicsAttrBase(Data[tuple[PackArrayHeuristics, ...]]):
         return set(self.data)
 
     def __init__(self, flags: Sequence[PackArrayHeuristics]):
-        super().__init__(tuple(set(flags)))
+        flags_ = set(flags)
+        # store the flags in declaration order, independent of the order they were given
+        super().__init__(tuple(flag for flag in PackArrayHeuristics if flag in flags_))
 
     @classmethod
     def parse_parameter(cls, parser: AttrParser) -> tuple[PackArrayHeuristics, ...]:
@@ -289,7 +298,7 @@ class PackArrayHeuristicsAttrBase(Data[tuple[PackArrayHeuristics, ...]]):
                     "pack_array heuristic expected",
                 )
                 flags.update(flag)
-            return tuple(flags)
+            return tuple(flag for flag in PackArrayHeuristics if flag in flags)
 
     def print_parameter(self, printer: Printer):
         with printer.in_angle_brackets():
